@@ -63,12 +63,16 @@ def check_curve(ctx, params, grid, mean, kappa, et, inp):
     import spowtd.simulate_rise as sr
     sy, T = sim.make_functions(params)
     Td = t_md(params, T)
+    from . import c17
+    if not c17.check_sy_is_the_parameter_sets(ctx, sy, params, grid, inp, oracle="c18Holds", what="the simulated elapsed time"):
+        return [float(v) for v in srm.compute_recession_curve(sy, Td, np.array(grid, dtype=float), mean, kappa, et)]
     ob = "compute_recession_curve = model riseCurve at Float on the recorded quad values"
     g = common.any_layout(ctx.rng, np.array(grid, dtype=float))
+    snap_g = common.snapshot(g)
     with sim.record_quad() as calls:
         sim.dirty_heap(ctx.rng, len(g))
         t = [float(v) for v in srm.compute_recession_curve(sy, Td, g, mean, kappa, et)]
-    if not common.same_as_snapshot(g, np.array(grid, dtype=float)) or len(t) != len(grid):
+    if not common.same_as_snapshot(g, snap_g) or len(t) != len(grid):
         ctx.violation("impl-violation", "c18Holds", {"input": inp, "impl": [float(v) for v in g], "oracle": {
             "name": "c18Holds", "result": False,
             "witness": {"why": "the caller's grid of levels was modified by compute_recession_curve, or the curve has another length",
@@ -144,8 +148,15 @@ def run(ctx):
     rng = ctx.rng
     nsets, ncli = (9, 10) if ctx.tier == "quick" else (150, 80)
     n_cli_done = 0
+    sweep = None
     for k in range(nsets):
         params = sim.spline_params(rng, -300.0, 100.0) if k % 3 else sim.peatclsm_params(rng, 100.0)
+        if k % 6 == 0:
+            sweep = params
+        elif k % 6 == 3 and sweep is not None:
+            # a sensitivity sweep in one session: the soil of an earlier set, another microtopography
+            params = {"specific_yield": dict(sweep["specific_yield"], sd=round(rng.uniform(0.05, 1.0), 3)),
+                      "transmissivity": dict(sweep["transmissivity"])}
         if k % 3 == 2:
             # any parameter values: a specific yield whose cubic undershoots below zero between sparse knots
             params = sim.spline_params(rng, -300.0, 100.0, n_sy=rng.randint(6, 9), oscillating=True)
@@ -156,6 +167,8 @@ def run(ctx):
             lo, hi = -330.0, params["transmissivity"]["zeta_max_cm"] * 10 - 1.0
         n = rng.randint(3, 8) if k % 3 != 2 else rng.randint(12, 20)
         grid = sorted({round(rng.uniform(lo, hi), 1) for _ in range(n)})
+        if rng.random() < 0.3 and int(lo) + 3 < int(hi):
+            grid = sorted({float(rng.randint(int(lo) + 1, int(hi) - 1)) for _ in range(n)})        # levels in whole millimetres
         if len(grid) < 3:
             continue
         kappa, et = rng.choice([(0.0, 3.5), (1.5e-3, 0.0), (1.5e-3, 4.0), (2e-4, 1.0)])
